@@ -199,10 +199,10 @@ def int_reduced(w):
 
 def int_tables(w, rng, tier):
     big = tier == 'thorough'
-    t1 = uniq([(b,) for b in int_boundaries(w) + int_random(w, rng, 6000 if big else 600)])
+    t1 = uniq([(b,) for b in int_boundaries(w) + int_random(w, rng, 6000 if big else 300)])
     red = int_reduced(w)
     t2 = [(a, b) for a in red for b in red]
-    rr = int_random(w, rng, 2 * (8000 if big else 800))
+    rr = int_random(w, rng, 2 * (8000 if big else 400))
     t2 += [(rr[2 * i], rr[2 * i + 1]) for i in range(len(rr) // 2)]
     bd = int_boundaries(w)
     for i in range(3000 if big else 300):
@@ -218,7 +218,7 @@ def int_tables(w, rng, tier):
     # (value, shift count) for rotl / rotr: count is an int
     shifts = [0, 1, 2, 7, 8, 9, 15, 16, 17, 31, 32, 33, 63, 64, 65, 127, 128, 1000, 0x7fffffff, -1, -2, -7, -8, -9, -31, -32, -33, -63, -64, -65,
               -128, -1000, -0x80000000]
-    ts = [(a, s & 0xffffffff) for a in int_boundaries(w)[:: (1 if big else 3)] for s in shifts]
+    ts = [(a, s & 0xffffffff) for a in int_boundaries(w)[:: (1 if big else 4)] for s in shifts]
     for i in range(4000 if big else 400):
         ts.append((rng.getrandbits(w), rng.getrandbits(32)))
     ts = uniq(ts)
@@ -416,23 +416,29 @@ def build(part, seed, tier, pinned):
         cmath_part(F64, 'f64', float_tables(F64, rng, tier), L)
     elif part == 'cm32':
         cmath_part(F32, 'f32', float_tables(F32, rng, tier), L)
-    elif part == 'int8':
-        for f in CCTYPE:
-            L.ob(f, f, 'dom_cctype')
-        for f in BIT1:
-            L.ob(f + '_u8', f + '.u8', 'dom_u8')
-        for f in ('rotl', 'rotr'):
-            L.ob(f + '_u8', f + '.u8', 'dom_u8_rot')
-        for f in BITPOS:
-            L.ob(f + '_u8', f + '.u8', 'dom_u8_pos')
-        for s in ('i8', 'u8'):
-            for f in ('add_sat', 'div_sat', 'midpoint', 'gcd', 'lcm'):
-                L.ob(f + '_' + s, f + '.' + s, 'dom_u8x8')
-            L.ob('abs_' + s, 'abs.' + s, 'dom_u8')
-        for f in ('sat_i8_u8', 'sat_u8_i8'):
-            L.ob(f, f.replace('sat_', 'saturate_cast.'), 'dom_u8')
-    elif part == 'intw':
-        for w in (16, 32, 64):
+    elif part in ('int8', 'num8'):
+        pairs = 'dom_u8x8' if tier == 'thorough' else 'dom_u8x8q'
+        if part == 'int8':
+            for f in CCTYPE:
+                L.ob(f, f, 'dom_cctype')
+            for f in BIT1:
+                L.ob(f + '_u8', f + '.u8', 'dom_u8')
+            for f in ('rotl', 'rotr'):
+                L.ob(f + '_u8', f + '.u8', 'dom_u8_rot')
+            for f in BITPOS:
+                L.ob(f + '_u8', f + '.u8', 'dom_u8_pos')
+            for s in ('i8', 'u8'):
+                for f in ('add_sat', 'div_sat'):
+                    L.ob(f + '_' + s, f + '.' + s, pairs)
+                L.ob('abs_' + s, 'abs.' + s, 'dom_u8')
+            for f in ('sat_i8_u8', 'sat_u8_i8'):
+                L.ob(f, f.replace('sat_', 'saturate_cast.'), 'dom_u8')
+        else:
+            for s in ('i8', 'u8'):
+                for f in ('midpoint', 'gcd', 'lcm'):
+                    L.ob(f + '_' + s, f + '.' + s, pairs)
+    elif part in ('w1632', 'w64'):
+        for w in ((16, 32) if part == 'w1632' else (64,)):
             t1, t2, ts, tp = int_tables(w, rng, tier)
             L.table('w%d_1' % w, t1)
             L.table('w%d_2' % w, t2)
@@ -448,19 +454,22 @@ def build(part, seed, tier, pinned):
                 for f in ('add_sat', 'div_sat', 'midpoint', 'gcd', 'lcm'):
                     L.ob('%s_%s%d' % (f, s, w), '%s.%s%d' % (f, s, w), 'w%d_2' % w)
                 L.ob('abs_%s%d' % (s, w), 'abs.%s%d' % (s, w), 'w%d_1' % w)
-        for f in ('abs_int', 'abs_ll', 'labs', 'llabs'):
-            L.ob(f, f.replace('_', '.'), 'w64_1')
-        for sc in SATCASTS:
-            L.ob('sat_' + sc, 'saturate_cast.' + sc, 'w64_1')
-        # bit_cast: every 32/64-bit pattern of the tables plus NaN payloads / signalling NaNs
-        extra32 = [(b,) for b in float_boundaries(F32)] + [(0x7f800001,), (0xff800001,), (0x7fbfffff,), (0x7fc00001,), (0xffffffff,)]
-        extra64 = [(b,) for b in float_boundaries(F64)] + [(0x7ff0000000000001,), (0xfff0000000000001,), (0x7ff7ffffffffffff,), (0xffffffffffffffff,)]
-        L.table('bc32', uniq(extra32 + [(rng.getrandbits(32),) for _ in range(300)]))
-        L.table('bc64', uniq(extra64 + [(rng.getrandbits(64),) for _ in range(300)]))
-        for f in ('bit_cast_u32_f32', 'bit_cast_f32_u32', 'bit_cast_arr_u32'):
-            L.ob(f, f.replace('bit_cast_', 'bit_cast.'), 'bc32')
-        for f in ('bit_cast_u64_f64', 'bit_cast_f64_u64', 'bit_cast_i64_f64'):
-            L.ob(f, f.replace('bit_cast_', 'bit_cast.'), 'bc64')
+        if part == 'w64':
+            for f in ('abs_int', 'abs_ll', 'labs', 'llabs'):
+                L.ob(f, f.replace('_', '.'), 'w64_1')
+            for sc in SATCASTS:
+                L.ob('sat_' + sc, 'saturate_cast.' + sc, 'w64_1')
+        else:
+            # bit_cast: every boundary pattern plus NaN payloads / signalling NaNs plus random patterns
+            extra32 = [(b,) for b in float_boundaries(F32)] + [(0x7f800001,), (0xff800001,), (0x7fbfffff,), (0x7fc00001,), (0xffffffff,)]
+            extra64 = [(b,) for b in float_boundaries(F64)] + [(0x7ff0000000000001,), (0xfff0000000000001,), (0x7ff7ffffffffffff,), (0xffffffffffffffff,)]
+            nr = 3000 if tier == 'thorough' else 300
+            L.table('bc32', uniq(extra32 + [(rng.getrandbits(32),) for _ in range(nr)]))
+            L.table('bc64', uniq(extra64 + [(rng.getrandbits(64),) for _ in range(nr)]))
+            for f in ('bit_cast_u32_f32', 'bit_cast_f32_u32', 'bit_cast_arr_u32'):
+                L.ob(f, f.replace('bit_cast_', 'bit_cast.'), 'bc32')
+            for f in ('bit_cast_u64_f64', 'bit_cast_f64_u64', 'bit_cast_i64_f64'):
+                L.ob(f, f.replace('bit_cast_', 'bit_cast.'), 'bc64')
     elif part == 'cstr':
         s1, s2, s2n, sc = cstr_tables(rng, tier)
         L.table('s1', s1)
